@@ -30,7 +30,9 @@ let parse_op (o : string) : pop * string list =
 let parse (input : string) =
   (* "A=<value>" (configured admin token of the case) is configuration, not an operation: the model is
      parametric in the admin token and runs with the symbolic one *)
-  let is_head o = Stdlib.String.length o >= 2 && Stdlib.String.sub o 0 2 = "A=" in
+  let is_head o =
+    let l = Stdlib.String.length o in
+    (l >= 2 && Stdlib.String.sub o 0 2 = "A=") || (l >= 3 && o.[0] = 'A' && o.[2] = '=' && (o.[1] = 'e' || o.[1] = 'f' || o.[1] = 'd')) in
   let ops = Stdlib.List.filter (fun o -> o <> "" && not (is_head o)) (split_on ';' input) in
   let parsed = Stdlib.List.map parse_op ops in
   let names = Stdlib.List.concat (Stdlib.List.map snd parsed) in
